@@ -259,7 +259,8 @@ def _tms_strategy():
     addr = st.one_of(st.binary(max_size=6), st.sampled_from([0, 1, 127, 128, 129, 254, 255]).flatmap(lambda n: st.binary(min_size=n, max_size=n)), st.binary(max_size=255)).map(bytes.hex)
     sn = st.one_of(st.sampled_from(SN_EDGES), st.integers(0, 127))
     bmp = st.characters(max_codepoint=0xFFFF, exclude_categories=["Cs"])
-    text = st.one_of(st.text(bmp, max_size=20), st.text(bmp, max_size=200), st.text(max_size=100), st.sampled_from([0, 199, 200]).flatmap(lambda n: st.text(bmp, min_size=n, max_size=n)))
+    text = st.one_of(st.just(""), st.text(bmp, min_size=1, max_size=20), st.text(bmp, min_size=21, max_size=200), st.text(min_size=1, max_size=100),
+                     st.sampled_from([51, 128, 199, 200]).flatmap(lambda n: st.text(bmp, min_size=n, max_size=n)))
     message = text.map(lambda s: s.encode("utf-16-le").hex())
     flags = st.tuples(st.booleans(), st.booleans(), st.booleans())
 
